@@ -9,6 +9,7 @@ mod agg_drv;
 mod cluster_drv;
 mod core_drv;
 mod persist_drv;
+mod redb_drv;
 mod sock_drv;
 mod util;
 
@@ -19,11 +20,14 @@ fn main() {
         std::process::exit(2);
     }
     // a panic in the code under test is an observation, not noise on stderr
-    std::panic::set_hook(Box::new(|_| {}));
+    if std::env::var("WBVERIF_PANIC_MSG").is_err() {
+        std::panic::set_hook(Box::new(|_| {}));
+    }
     let code = match args[1].as_str() {
         "core-run" => core_drv::main_run(&args[2..]),
         "agg-run" => agg_drv::main_run(&args[2..]),
         "cluster-run" => cluster_drv::main_run(&args[2..]),
+        "redb-run" => redb_drv::main_run(&args[2..]),
         "persist-run" => persist_drv::main_run(&args[2..]),
         "sock-run" => sock_drv::main_run(&args[2..]),
         other => {
